@@ -24,7 +24,7 @@ members to typed unknowns true of the replaced part.
 import CtyModel.Props.C11
 import CtyModel.Lemmas.CoversWeaken
 import CtyModel.Lemmas.C12Funcs
-import CtyModel.Lemmas.d12bReverse
+import CtyModel.Lemmas.d12bContains
 namespace CtyModel
 namespace C12
 open Fn Std
@@ -530,6 +530,58 @@ theorem sound_values (E : Stdlib.Env) (o w r : Value) (hk : o.whollyKnown = true
     (fun hp hri => D12b.values_implSound E o w (D12b.ty_kept_of_passes_nodyn (spec := Stdlib.valuesSpec) rfl hp hty)
       hmw hmo (D12b.known_of_reaches1 (spec := Stdlib.valuesSpec) rfl hri) hc) hr
 
+/-- `Equals` of the concrete / weakened needle with a concrete / weakened element: both answer and the weakened
+answer admits the concrete one (C01 `sound_equals_partial`, `sound_equals_object_partial`, … give this) -/
+def EqAt := D12b.EqAt
+/-- … for the elements of the two haystacks, in iteration order -/
+def EqPairs := D12b.EqPairs
+
+/-- **`contains`**, `_partial` in that the soundness of `Equals` on the visited pairs is a hypothesis (`EqPairs`;
+`Equals` itself is only partially sound: C01 `sound_equals_counterexample`).  Given that, the search loop is
+sound: a definite answer of the concrete call is the weakened call's answer too, unless some comparison on
+the way was unknown — then the weakened answer is unknown.  No other route to a definite answer exists in
+the modelled callback; the seeded changes `C12-contains-set-hash-lookup-fast-path` (a definite False from a
+hash lookup for a needle with an unknown inside) and `C12-contains-rawequals-fast-path…` contradict this
+theorem on their witnesses, and the correspondence sees them as model / code mismatches. -/
+theorem sound_contains_partial (E : Stdlib.Env) (oa wa on wn r : Value)
+    (hka : oa.whollyKnown = true) (hkn : on.whollyKnown = true)
+    (hmoa : oa.containsMarked = false) (hmwa : wa.containsMarked = false)
+    (hmon : on.containsMarked = false) (hmwn : wn.containsMarked = false)
+    (hca : CoversX wa oa = true) (hcn : CoversX wn on = true)
+    (hta : wa.ty = oa.ty) (htn : wn.ty = on.ty ∨ wn.ty.isDyn = true)
+    (hnull : wa.isNull = oa.isNull)
+    (hlen : ∀ l, Stdlib.lengthInt oa = .ok l → ∃ l', Stdlib.lengthInt wa = .ok l' ∧ ((l' == 0) = (l == 0)))
+    (hel : ∀ eo, Stdlib.elems E oa = .ok eo → ∃ ew, Stdlib.elems E wa = .ok ew ∧ EqPairs on wn eo ew ∧
+      (∀ a ∈ eo, a.containsMarked = false) ∧ (∀ a ∈ ew, a.containsMarked = false))
+    (hrwf : Ty.wf r.ty = true) (hrefl : Covers r r = true)
+    (hr : (callUnrefined Stdlib.containsSpec Stdlib.containsType (Stdlib.containsImpl E) [oa, on]).1 = .ok r) :
+    ∃ r', (callUnrefined Stdlib.containsSpec Stdlib.containsType (Stdlib.containsImpl E) [wa, wn]).1 = .ok r' ∧
+      Covers r' r = true :=
+  impl_soundness_lifts_to_call _ _ _ [oa, on] [wa, wn] r (fun _ => D12b.typeMonoAt_of_eq rfl)
+    (fun t ht => by cases ht; rfl)
+    (by intro a ha; simp at ha; rcases ha with rfl | rfl <;> exact C12L.whollyKnown_isKnown (by assumption))
+    (by intro a ha; simp at ha; rcases ha with rfl | rfl <;> assumption)
+    (by intro a ha; simp at ha; rcases ha with rfl | rfl <;> assumption)
+    (by simp [coversAll, hca, hcn]) ⟨Or.inl hta, htn, trivial⟩ hrwf hrefl
+    (fun _ _ => D12b.contains_implSound E oa wa on wn hta hmon hmwn (C12L.whollyKnown_isKnown hka)
+      (C12L.whollyKnown_isKnown hkn) hnull hlen hel) hr
+
+/-- the haystack left as it is (a list, tuple or SET), the needle weakened — the scenario of the seeded
+hash-lookup change: what is needed is `Equals` sound on (needle, element) for the elements of the haystack -/
+theorem sound_contains_needle (E : Stdlib.Env) (oa on wn r : Value)
+    (hka : oa.whollyKnown = true) (hkn : on.whollyKnown = true)
+    (hmoa : oa.containsMarked = false) (hmon : on.containsMarked = false) (hmwn : wn.containsMarked = false)
+    (hca : CoversX oa oa = true) (hcn : CoversX wn on = true) (htn : wn.ty = on.ty ∨ wn.ty.isDyn = true)
+    (hEq : ∀ eo, Stdlib.elems E oa = .ok eo → ∀ v ∈ eo, EqAt on wn v v)
+    (hrwf : Ty.wf r.ty = true) (hrefl : Covers r r = true)
+    (hr : (callUnrefined Stdlib.containsSpec Stdlib.containsType (Stdlib.containsImpl E) [oa, on]).1 = .ok r) :
+    ∃ r', (callUnrefined Stdlib.containsSpec Stdlib.containsType (Stdlib.containsImpl E) [oa, wn]).1 = .ok r' ∧
+      Covers r' r = true :=
+  sound_contains_partial E oa oa on wn r hka hkn hmoa hmoa hmon hmwn hca hcn rfl htn rfl
+    (fun l hl => ⟨l, hl, rfl⟩)
+    (fun eo he => ⟨eo, he, D12b.eqPairs_refl_of eo (hEq eo he), D12b.elems_clean_all E hmoa he,
+      D12b.elems_clean_all E hmoa he⟩) hrwf hrefl hr
+
 /-! ### the hypotheses are satisfiable -/
 
 example : TypeMonoW (C11.staticType (.list .string)) := static_typeMonoW _
@@ -654,5 +706,29 @@ example : ∃ r', (callUnrefined Stdlib.coalesceSpec (Stdlib.coalesceType { unif
     [⟨.list .string, .null⟩, exL] [⟨.list .string, .null⟩, exLw] exL (by decide) (by decide) (by decide)
     (by intro t h; cases h; rfl) (by decide) ⟨rfl, rfl, trivial⟩ (by decide) (by decide) (by rfl)
 
+/-- the scenario of the seeded change `C12-contains-set-hash-lookup-fast-path`: a wholly known SET of tuples,
+the needle a tuple with an unknown inside; the concrete call finds it -/
+def exHay : Value := ⟨.set (.tuple [.number, .string]), .sset [1] [.seq [.n (.fin false 1 1 64), .s "b"]]⟩
+def exNeedle : Value := ⟨.tuple [.number, .string], .seq [.n (.fin false 1 1 64), .s "b"]⟩
+def exNeedleW : Value := ⟨.tuple [.number, .string], .seq [.unk .unref, .s "b"]⟩
+
+example : ∃ r', (callUnrefined Stdlib.containsSpec Stdlib.containsType (Stdlib.containsImpl {}) [exHay, exNeedleW]).1 = .ok r' ∧
+    Covers r' (Value.boolVal true) = true :=
+  sound_contains_needle {} exHay exNeedle exNeedleW (Value.boolVal true) (by decide) (by decide) (by decide) (by decide)
+    (by decide) (by decide) (by decide) (Or.inl rfl)
+    (by
+      intro eo he
+      have h : Stdlib.elems {} exHay = .ok [⟨.tuple [.number, .string], .seq [.n (.fin false 1 1 64), .s "b"]⟩] := by rfl
+      rw [h] at he
+      cases he
+      intro v hv
+      simp only [List.mem_cons, List.not_mem_nil, or_false] at hv
+      subst hv
+      exact ⟨_, _, by rfl, by rfl, by decide⟩)
+    (by decide) (by decide) (by rfl)
+
+/-- and what the model answers there: unknown, not False -/
+example : (callUnrefined Stdlib.containsSpec Stdlib.containsType (Stdlib.containsImpl {}) [exHay, exNeedleW]).1 =
+    .ok (Value.unknown .bool) := by rfl
 end C12
 end CtyModel
